@@ -22,6 +22,10 @@ PROP = {
     ],
     "theorem_notes": {
         "C01_statement": "stated, not proved in full (equivalence of two ~800-line programs); proved parts: C01_sets, C01_schemes, C01_preprocessing, C01_override_independent, C01_eq_cleaning, C01_eq_encoders, C01_eq_scheme_state and the class theorems below",
+        "C01_partial": "C01_statement restricted to in_proved_class (recognisers on the Standard's side) with bases given as a pair (model record, Standard record) in the relation `related` (wf_b, same ten API strings, same text before fragment/query, same scheme, same cannot-be-a-base, Standard record without host/credentials/port where its states assume so); outcome relation `agree`: Standard success -> model success with the same ten API strings OR ParseError::Overflow (named restriction: serialization > u32::MAX), Standard failure -> model Err; encoding override None; usv_list input. Classes so far: opaque (no base), fragment-only, query-only (base without opaque path), opaque-base failure. NOT covered: authority, special schemes without base, file, path state with a base, port/host states",
+        "C01_eq_fragment_only": "for every `related` base (also cannot-be-a-base ones); result related again",
+        "C01_eq_query_only": "for every `related` base without opaque path (special / file / other: the query set follows the base scheme); result related again",
+        "C01_eq_opaque_base_fail": "failure on both sides (model: RelativeUrlWithCannotBeABaseBase)",
         "C01_eq_opaque": "equivalence PROVED for the class in_class_opaque (recogniser on the Standard's side: no base, the cleaned text has a non-special scheme and the text after ':' does not start with '/'), every scalar-value input incl. tab/LF/CR anywhere and C0/space at the ends; restrictions named in the statement: usv_list input (Rust &str), and the model may answer ParseError::Overflow (serialization > u32::MAX) where the Standard succeeds - otherwise POk with the same ten API strings; no host function involved",
     },
 }
